@@ -128,6 +128,7 @@ func main() {
 		var lastDiff *diffdb.Diff
 		// a view object that is kept across operations (and possibly across a RestoreSnapshot on the root)
 		var held *diffdb.Database
+		var heldMid *diffdb.Database // the one-byte view the held two-byte view was derived from: later siblings come from it too
 		var heldPrefix []byte
 		stale := 0
 		snapIDs := []int{}
@@ -140,7 +141,9 @@ func main() {
 			full := join(rootPrefix, vp)
 			view := store
 			if len(vp) > 0 {
-				if len(vp) == 2 && r.Intn(2) == 0 {
+				if len(vp) == 2 && heldMid != nil && vp[0] == heldPrefix[0] && r.Intn(2) == 0 {
+					view = heldMid.WithPrefix(vp[1:]) // a sibling of the held view, derived from the same parent view
+				} else if len(vp) == 2 && r.Intn(2) == 0 {
 					view = store.WithPrefix(vp[:1]).WithPrefix(vp[1:]) // nested views
 				} else {
 					view = store.WithPrefix(vp)
@@ -149,7 +152,11 @@ func main() {
 			useHeld := 0
 			if held == nil && r.Intn(6) == 0 {
 				heldPrefix = views[1+r.Intn(len(views)-1)]
-				held = store.WithPrefix(heldPrefix)
+				held, heldMid = store.WithPrefix(heldPrefix), nil
+				if len(heldPrefix) == 2 && r.Intn(2) == 0 {
+					heldMid = store.WithPrefix(heldPrefix[:1])
+					held = heldMid.WithPrefix(heldPrefix[1:])
+				}
 				stale = 0
 			}
 			op := r.Intn(20)
@@ -270,7 +277,7 @@ func main() {
 				lastDiff = dec
 				store = diffdb.New(d, rootPrefix)
 				snapIDs = nil
-				held = nil
+				held, heldMid = nil, nil
 				meta["commit"]++
 			default:
 				if lastDiff != nil {
@@ -281,7 +288,7 @@ func main() {
 					w.Emit(map[string]interface{}{"op": "revert", "dump": dump(d)})
 					lastDiff = nil
 					snapIDs = nil
-					held = nil
+					held, heldMid = nil, nil
 					meta["revert"]++
 				}
 			}
